@@ -9,7 +9,7 @@ from hypothesis import strategies as st
 
 from ..core import SubCheck, Violation, cut, require
 from ..oracles import atmosphere as oatm
-from ..strategies import CHUNK_SIZES, bfloat, block_edge_sizes, log_uniform, near, rel_near, ulp_step
+from ..strategies import CHUNK_SIZES, bfloat, block_edge_sizes, same_values, log_uniform, near, rel_near, ulp_step
 
 PROPERTY_ID = "C19"
 LEVEL = "exploration"
@@ -217,7 +217,7 @@ def body_big_and_aliasing(case):
                 with cut(f"pressure_from_altitude({fname} array {x.shape})"):
                     got = np.asarray(mod.us_std_atm_pressure_from_altitude(x))
                     want = np.asarray(mod.us_std_atm_pressure_from_altitude(xs.copy()))
-                require(got.shape == want.shape and np.ascontiguousarray(got).tobytes() == want.tobytes(), f"pressure_from_altitude of a {fname} array {x.shape} differs from the plain array of the same values (e.g. cell {tuple(int(i) for i in np.argwhere(np.asarray(got) != want)[0]) if got.shape == want.shape and np.any(got != want) else '?'})")
+                require(got.shape == want.shape and same_values(got, want), f"pressure_from_altitude of a {fname} array {x.shape} differs from the plain array of the same values (e.g. cell {tuple(int(i) for i in np.argwhere(np.asarray(got) != want)[0]) if got.shape == want.shape and np.any(got != want) else '?'})")
                 with cut(f"altitude_from_pressure({fname} array {x.shape})"):
                     if fname == "bigendian":
                         pin = want.astype(">f8")
@@ -233,7 +233,7 @@ def body_big_and_aliasing(case):
                         pin.flags.writeable = False
                     zb = np.asarray(mod.us_std_atm_altitude_from_pressure(pin))
                     zw = np.asarray(mod.us_std_atm_altitude_from_pressure(want.copy()))
-                require(zb.shape == zw.shape and np.ascontiguousarray(zb).tobytes() == zw.tobytes(), f"altitude_from_pressure of a {fname} array {x.shape} differs from the plain array of the same values")
+                require(zb.shape == zw.shape and same_values(zb, zw), f"altitude_from_pressure of a {fname} array {x.shape} differs from the plain array of the same values")
         labels.add("memory_layouts")
     return labels
 
